@@ -1,3 +1,79 @@
+/-
+C30 — Decompiled manifests compile back to the same manifest (partial).
+
+Full statement: for every transaction, subintent or system manifest `m`,
+`compile(decompile(m)) = m` (instructions, argument values, blobs, address reservations, named
+objects, child subintents).  At the level of one argument value the planned theorem is
+
+    compile_decompile_value :  WellFormed v → depth v ≤ PARSER_MAX_DEPTH →
+        compileValue (printValue esc v true 0) = .ok v
+
+It is NOT proved here.  What is proved are the pieces of it that carry the arithmetic / text-level
+risk (for all inputs), over the executable model of printer, lexer, parser and generator that the
+correspondence run compares with the real code on every check (printed text byte-for-byte, and the
+outcome of tokenize → parse_value → generate_value):
+
+* `string_escape_roundtrip_partial` — the lexer's string loop decodes the escaper's output back to
+  the original string, for every string and every escaping predicate (the Unicode table is a
+  parameter), for characters escaped through a single `\uXXXX` unit; the surrogate-pair branch is
+  covered by `surrogate_pair_arithmetic` (the two code-unit formulas are mutually inverse) and by
+  correspondence (the kernel check of the full lexer term for that branch exceeds the recursion
+  limit, see the report);
+* `unicode_unit_roundtrip`, `bytes_hex_roundtrip`, `non_fungible_global_id_split`;
+* `kind_names_agree` — the value-kind spelling table of the model is the one of the compiled tree.
+Instructions, names, blobs, children, all four manifest kinds: oracle on the real
+`decompile`/`compile_manifest` (area c30m).
+-/
 import RadixModel.Model.ManifestValue
+import RadixModel.Lemmas.ManifestValue
 namespace Radix.Manifest
+
+/-- The spelling of every `ManifestValueKind` in the model is `format_value_kind` of the compiled tree. -/
+theorem value_kind_names_agree : MKind.all.map MKind.name = Radix.Generated.C30.kindNames := kind_names_agree
+
+/-- **Escaper round trip** (partial: characters that the predicate escapes must be in the BMP).
+Lexing `escape(s)"rest` inside a string literal yields exactly `s` and stops at the closing quote,
+whatever the escaping predicate is. -/
+theorem string_escape_roundtrip_partial (esc : Char → Bool) (s : List Char)
+    (hs : ∀ c ∈ s, c.toNat < 0x10000 ∨ esc c = false) (rest : List Char) (p : Pos) :
+    strLoop (escapeBody esc s ++ '"' :: rest) p = .ok (s, ⟨'"' :: rest, advanceBy p (escapeBody esc s)⟩) :=
+  strLoop_escapeBody_partial esc s hs rest p
+
+/-- non-vacuity: quotes, backslashes, control characters, a non-ASCII char escaped as `\u00e9` -/
+example : ∀ c ∈ ['a', '"', '\\', '\n', 'é'], c.toNat < 0x10000 ∨ (fun _ => true) c = false := by decide
+
+/-- Whole string literal: `tokenize_string` on `"` ++ escape(s) ++ `"` gives the token `s`. -/
+theorem lexString_escapeString_partial (esc : Char → Bool) (s : List Char)
+    (hs : ∀ c ∈ s, c.toNat < 0x10000 ∨ esc c = false) (rest : List Char) (p : Pos) :
+    ∃ q, lexString ⟨escapeString esc s ++ rest, p⟩ = .ok (⟨.str s, ⟨p, q⟩⟩, ⟨rest, q⟩) := by
+  have h := strLoop_escapeBody_partial esc s hs rest (p.advance '"')
+  refine ⟨(advanceBy (p.advance '"') (escapeBody esc s)).advance '"', ?_⟩
+  simp only [escapeString, List.cons_append, List.nil_append, List.append_assoc, lexString, advance]
+  rw [h]
+
+/-- The four hex digits printed for a UTF-16 unit are read back as that unit. -/
+theorem unicode_unit_roundtrip (u : Nat) (hu : u < 65536) (rest : List Char) (p : Pos) :
+    ∃ q, readUnit ⟨(unitEscape u).drop 2 ++ rest, p⟩ = .ok (u, ⟨rest, q⟩) :=
+  ⟨_, readUnit_unitEscape u hu rest p⟩
+
+/-- The surrogate-pair formulas of `format_json_utf16_escaped_char` and of the lexer are inverse. -/
+theorem surrogate_pair_arithmetic (n : Nat) (h1 : 0x10000 ≤ n) (h2 : n ≤ 0x10FFFF) :
+    let hi := 0xD800 + (n - 0x10000) / 1024
+    let lo := 0xDC00 + (n - 0x10000) % 1024
+    hi < 65536 ∧ lo < 65536 ∧ (0xD800 ≤ hi ∧ hi ≤ 0xDFFF) ∧ 0x10000 + (hi - 0xD800) * 1024 + lo - 0xDC00 = n :=
+  surrogate_pair_roundtrip n h1 h2
+
+/-- `Bytes("…")`: `hex::decode` of the printed hex digits gives the bytes back. -/
+theorem bytes_hex_roundtrip (bs : List Nat) (h : ∀ b ∈ bs, b < 256) : hexDecode (bs.flatMap hexByte) = some bs :=
+  hexDecode_hexBytes bs h
+
+example : ∀ b ∈ [0, 255, 16], b < 256 := by decide
+
+/-- `NonFungibleGlobalId("<address>:<id>")`: the generator's split at the first colon recovers the
+two parts when the address text has no colon (bech32 has none). -/
+theorem non_fungible_global_id_split (a i : List Char) (h : ':' ∉ a) : splitAtColon (a ++ ':' :: i) = some (a, i) :=
+  splitAtColon_append a i h
+
+example : ':' ∉ "resource_sim1qq".toList := by decide
+
 end Radix.Manifest
